@@ -40,9 +40,13 @@ pub struct CertCase {
 /// An issuer spec: a CA with a generated name and key identifier method.
 pub fn issuer_case(moderate: bool, same_oid_dn: bool, cheap: bool) -> BoxedStrategy<IssuerCase> {
 	let key = if cheap { gen::cheap_key().boxed() } else { gen::key_spec().boxed() };
-	(gen::dn(5, moderate, same_oid_dn), gen::kid(), key, prop::option::of(gen::key_usages(1)), gen::is_ca_any())
-		.prop_map(|(dn, kid, key, ku, is_ca)| {
+	(gen::dn(5, moderate, same_oid_dn), gen::kid(), key, prop::option::of(gen::key_usages(1)), gen::is_ca_any(), prop::option::weighted(0.4, gen::conformant_serial()))
+		.prop_map(|(dn, kid, key, ku, is_ca, serial)| {
 			let mut spec = CertSpec::minimal();
+			// an issuer certificate numbered by whoever issued it, or numbered automatically
+			if serial.is_some() {
+				spec.serial = serial;
+			}
 			spec.dn = dn;
 			spec.kid = kid;
 			spec.is_ca = is_ca;
